@@ -63,6 +63,7 @@ Inductive c16case :=
    which the reader then drains.  [emitted]: every change delivered, seeds, plugs and barriers included *)
 | KCollL (e : ecfg) (uo : bool) (thr : option Q) (init : list (string * cval)) (phases : list (list collop))
          (emitted : list (string * option cval * option cval))
+         (kinds : list Z)   (* the ChangeType of each delivered change as numbered by types.ChangeType: ADD 1, UPDATE 2, REMOVE 3, REPLACE 4 *)
 (* [g]: the guard as the generator computed it (so that the guard-pass rate it reports is the judge's) *)
 | KG (g : bool) (c : c16case).
 
@@ -153,6 +154,11 @@ Definition coll_full_model (e : ecfg) (uo : bool) (thr : option Q) (init : list 
 Definition coll_lossy_model (e : ecfg) (uo : bool) (thr : option Q) (init : list (string * cval)) (phases : list (list collop))
   : list (string * option cval * option cval) :=
   map triple_of (pull_collection_held id_filter (Some (model_e e)) (coll_state init) (coll_ro uo thr) (merged_events init phases)).
+(* the ChangeType of every change delivered on that path (REPLACE a kind of its own): the kind-carrying loop of
+   Cmp/CollLossy.v, which erases to the loop above (CollLossyProofs.pull_collection_held_k_erase) *)
+Definition coll_lossy_kinds (e : ecfg) (uo : bool) (thr : option Q) (init : list (string * cval)) (phases : list (list collop))
+  : list Z :=
+  map snd (pull_collection_held_k unit id_filter (model_e e) (coll_state init) (coll_ro uo thr) (merged_events_k init phases)).
 
 (* masks.ResponseFilter.FilterClone for a mask of top-level field names, on messages without unknown
    fields: the listed populated fields are kept; an empty mask resets the message *)
@@ -210,7 +216,9 @@ Definition agrees_core (c : c16case) : bool :=
   | KColl e uo thr init ops emitted => list_eqb triple_eqb emitted (coll_full_model e uo thr init ops)
   | KStreamM paths e seed writes emitted => cvals_eqb emitted (pull_model_m paths e seed writes)
   | KCollM paths e uo thr init ops emitted => list_eqb triple_eqb emitted (coll_full_model_m paths e uo thr init ops)
-  | KCollL e uo thr init phases emitted => list_eqb triple_eqb emitted (coll_lossy_model e uo thr init phases)
+  | KCollL e uo thr init phases emitted kinds =>
+      list_eqb triple_eqb emitted (coll_lossy_model e uo thr init phases)
+      && list_eqb Z.eqb kinds (coll_lossy_kinds e uo thr init phases)
   | KG _ _ => false
   end.
 
@@ -359,7 +367,7 @@ Definition ok_core (c : c16case) : bool :=
       list_eqb pair_eqb (map (fun t : string * option cval * option cval => (fst (fst t), snd t)) emitted)
                ((if uo then [] else map (fun p : string * cval => (fst p, Some (snd p))) view)
                 ++ ideal_coll_m f e thr view ops)
-  | KCollL e uo thr init phases emitted =>
+  | KCollL e uo thr init phases emitted _ =>
       let view0 := seen_init thr init in
       let seeds := if uo then [] else map (fun p : string * cval => (fst p, Some (snd p))) view0 in
       let ds := map (fun t : string * option cval * option cval => (fst (fst t), snd t)) emitted in
@@ -418,7 +426,7 @@ Definition guard_core (c : c16case) : bool :=
       forallb (fun p : string * cval => opt_guard (Some (snd p))) init
       && forallb (fun o : collop => opt_guard (snd o)) ops && ecfg_guard e
       && match thr with Some t => small_dyadic t | None => true end
-  | KCollL e _ thr init phases _ =>
+  | KCollL e _ thr init phases _ _ =>
       forallb (fun p : string * cval => opt_guard (Some (snd p))) init
       && forallb (fun o : collop => opt_guard (snd o)) (List.concat phases) && ecfg_guard e
       && match thr with Some t => small_dyadic t | None => true end
